@@ -21,8 +21,19 @@ class SymRng(_random.Random):
     gauss/normalvariate -> unconstrained SReal;  expovariate -> SReal > 0
     """
 
-    def __init__(self, tag="rng", uniform_mode="real", log=None, max_draws=None):
+    RANDOM_GRID = (0.03, 0.37, 0.62, 0.96)
+    GAUSS_GRID = (-1.3, 0.0, 0.9)
+    EXPO_GRID = (0.05, 0.8, 3.0)
+
+    def __init__(self, tag="rng", uniform_mode="real", log=None, max_draws=None, random_mode="real", free_draws=None):
+        """random_mode='grid': random() / gauss() / expovariate() return a solver-chosen member of a small
+        fixed grid as a plain float (for code that pushes the draw through math.log / float())"""
         super().__init__(0)
+        self.random_mode = random_mode
+        self.free_draws = free_draws
+        self._tail_rng = None
+        if free_draws is not None and max_draws is None:
+            self.MAX_DRAWS = 200000
         if max_draws is not None:
             self.MAX_DRAWS = max_draws
         self.tag = tag
@@ -30,6 +41,16 @@ class SymRng(_random.Random):
         self.draws = []  # (kind, proxy-or-value) in order, for replay
 
     MAX_DRAWS = 300
+    TAIL_STREAMS = 4
+
+    def _tail(self):
+        """free_draws=K: the first K draws of a path are individually solver-chosen; every later draw comes from one of
+        TAIL_STREAMS ordinary pseudo-random streams, the stream being solver-chosen (for code that draws hundreds of numbers)"""
+        if self.free_draws is None or len(self.draws) < self.free_draws:
+            return None
+        if self._tail_rng is None:
+            self._tail_rng = _random.Random(1000 + symx.choose(self.tag + "_tailstream", self.TAIL_STREAMS))
+        return self._tail_rng
 
     def _rec(self, kind, v):
         self.draws.append((kind, v))
@@ -40,9 +61,17 @@ class SymRng(_random.Random):
         return v
 
     def random(self):
+        t = self._tail()
+        if t is not None:
+            return self._rec("random", t.random())
+        if self.random_mode == "grid":
+            return self._rec("random", self.RANDOM_GRID[symx.choose(self.tag + "_ugrid", len(self.RANDOM_GRID))])
         return self._rec("random", symx.sym_real(self.tag + "_u", 0, 1, hi_strict=True))
 
     def randint(self, a, b):
+        t = self._tail()
+        if t is not None:
+            return self._rec("randint", t.randint(a, b))
         if type(a) is int and type(b) is int and b - a <= 64:
             return self._rec("randint", a + symx.choose(self.tag + "_i", b - a + 1))
         return self._rec("randint", symx.sym_int(self.tag + "_i", a, b))
@@ -54,12 +83,18 @@ class SymRng(_random.Random):
         return self.randint(start, stop - 1)
 
     def getrandbits(self, k):
+        t = self._tail()
+        if t is not None:
+            return self._rec("getrandbits", t.getrandbits(k))
         return self._rec("getrandbits", symx.sym_int(self.tag + "_bits", 0, (1 << k) - 1))
 
     def choice(self, seq):
         seq = list(seq)
         if not seq:
             raise IndexError("Cannot choose from an empty sequence")
+        t = self._tail()
+        if t is not None:
+            return seq[self._rec("choice", t.randrange(len(seq)))]
         return seq[self._rec("choice", symx.choose(self.tag + "_c", len(seq)))]
 
     def choices(self, population, weights=None, *, cum_weights=None, k=1):
@@ -70,32 +105,52 @@ class SymRng(_random.Random):
             allowed = list(range(len(population)))
         if not allowed:
             raise ValueError("Total of weights must be greater than zero")
-        return [population[allowed[self._rec("choices", symx.choose(self.tag + "_cs", len(allowed)))]] for _ in range(k)]
+        out = []
+        for _ in range(k):
+            t = self._tail()
+            j = t.randrange(len(allowed)) if t is not None else symx.choose(self.tag + "_cs", len(allowed))
+            out.append(population[allowed[self._rec("choices", j)]])
+        return out
 
     def sample(self, population, k, *, counts=None):
         pool = list(population)
         out = []
         for _ in range(k):
-            out.append(pool.pop(self._rec("sample", symx.choose(self.tag + "_s", len(pool)))))
+            t = self._tail()
+            out.append(pool.pop(self._rec("sample", t.randrange(len(pool)) if t is not None else symx.choose(self.tag + "_s", len(pool)))))
         return out
 
     def shuffle(self, x):
         pool = list(x)
         for i in range(len(x)):
-            x[i] = pool.pop(self._rec("shuffle", symx.choose(self.tag + "_sh", len(pool))))
+            t = self._tail()
+            x[i] = pool.pop(self._rec("shuffle", t.randrange(len(pool)) if t is not None else symx.choose(self.tag + "_sh", len(pool))))
 
     def uniform(self, a, b):
+        t = self._tail()
+        if t is not None:
+            return self._rec("uniform", t.uniform(a, b))
         if self.uniform_mode == "grid":
             grid = [a, (a + b) / 2, b]
             return grid[self._rec("uniform", symx.choose(self.tag + "_ug", 3))]
         return self._rec("uniform", symx.sym_real(self.tag + "_un", a, b))
 
     def gauss(self, mu=0.0, sigma=1.0):
+        t = self._tail()
+        if t is not None:
+            return self._rec("gauss", t.gauss(mu, sigma))
+        if self.random_mode == "grid":
+            return self._rec("gauss", mu + sigma * self.GAUSS_GRID[symx.choose(self.tag + "_ggrid", len(self.GAUSS_GRID))])
         return self._rec("gauss", symx.sym_real(self.tag + "_g"))
 
     normalvariate = gauss
 
     def expovariate(self, lambd=1.0):
+        t = self._tail()
+        if t is not None:
+            return self._rec("expo", t.expovariate(lambd))
+        if self.random_mode == "grid":
+            return self._rec("expo", self.EXPO_GRID[symx.choose(self.tag + "_egrid", len(self.EXPO_GRID))] / lambd)
         return self._rec("expo", symx.sym_real(self.tag + "_e", 0, None, lo_strict=True))
 
     def seed(self, *a, **k):
